@@ -109,6 +109,8 @@ type frame struct {
 type FCtx struct {
 	typeArgs map[string]types.Type // names of the type parameters of the generic callee whose contract is being evaluated
 	changed  bool                   // the function's own source differs from the ledgered one
+	inlineCallPos []token.Pos        // call positions of the inlined frames (parallel to frames[1:])
+	ownDefs  map[string]bool         // names defined or assigned anywhere in the function's own body
 	renames  map[string]types.Object // old local name -> the local that took its place (pure renames only)
 	renamesRev map[string]string     // new local name -> old name
 	E                 *Engine
